@@ -48,12 +48,13 @@ fn with_len(c: &Case, keep: &[usize]) -> Case {
             base: *base,
             ops: keep.iter().map(|&i| ops[i].clone()).collect(),
         },
-        Case::Wm { d, cap, max_windows, base, evs } => Case::Wm {
+        Case::Wm { d, cap, max_windows, base, evs, frac_us } => Case::Wm {
             d: *d,
             cap: *cap,
             max_windows: *max_windows,
             base: *base,
             evs: keep.iter().map(|&i| evs[i].clone()).collect(),
+            frac_us: *frac_us,
         },
         Case::Ws { d, cap, base, via_datastream, evs } => Case::Ws {
             d: *d,
@@ -281,7 +282,7 @@ fn run_job(job: &Job, dp: &Depths, cli: &Cli, st: &mut Stats, sh: &mut Shard) ->
             let dom = ts_domain(*d, 7);
             enum_trie(dom.len(), *first, dp.wm, &mut |seq| {
                 let evs = seq.iter().enumerate().map(|(p, &s)| Ev { ts: dom[s], pay: exh_pay(p, dom[s]) }).collect();
-                let c = Case::Wm { d: *d, cap: *cap, max_windows: *maxw, base: 0, evs };
+                let c = Case::Wm { d: *d, cap: *cap, max_windows: *maxw, base: 0, evs, frac_us: 0 };
                 check_case(&c, seq.len() - 1, st, sh);
                 guard(&mut complete)
             });
